@@ -120,3 +120,37 @@ def sanity(repo, verif, targets, seed=1, count=100000):
         return out
     finally:
         shutil.rmtree(scratch, ignore_errors=True)
+
+
+def stand_in(prop, fns, units_undecided, repo, verif, seed=1, count=300000):
+    """Bounded stand-in for a run that ended UNDECIDED (lost anchor, unsupported construct, resource limit): the same
+    differential tests, run for every function of the property that has a target.  A disagreement is a concrete input
+    on which the real code of the current tree violates what the contract states; nothing found means nothing."""
+    targets = []
+    for f in fns:
+        t = TARGET_OF.get(f, f)
+        if f.startswith("parse_") or f in ("parse", "collect_error_factories", "error_term"):
+            t = "packrat_complete" if prop == "C07" else None
+        if f in ("resolve_variables", "collect_definitions"):
+            t = "resolve"
+        if t in KNOWN and t not in targets:
+            targets.append(t)
+    if not targets:
+        return None
+    scratch = tempfile.mkdtemp(prefix="gramwit.", dir="/var/tmp")
+    try:
+        binary = build(repo, verif, scratch)
+        out = run_targets(binary, targets, seed, count, repo)
+        if not out:
+            return None
+        return {
+            "summary": f"{out['input']}  ->  real code: {out['real']}   reference semantics: {out['reference']}",
+            "target": out["target"], "seed": seed, "count": count,
+            "input": out["input"], "real": out["real"], "reference": out["reference"],
+            "stand_in": True,
+            "method": "BOUNDED stand-in (the proof run was undecided): random differential test of the real functions (copied from /repo's working tree) against the executable transcription of the spec functions (witness/src/reference.rs, grammar.rs); targets tried: " + ", ".join(targets),
+        }
+    except Exception:
+        return None
+    finally:
+        shutil.rmtree(scratch, ignore_errors=True)
